@@ -457,16 +457,7 @@ def run_job(job, acct):
       d = float('inf') if case['d'] == 'inf' else case['d']
       tt = case['t'] if case['t'] is not None else 180.0
       if d < tt and case['kind'] in ('returns', 'late') and (i // job['nshards'] + job['seed']) % max(1, job['sweep_every'] // 4) == 0:
-        ends = [e for e in s0.events if e[0] == 'put-end']
-        pts = []
-        if ends:
-          _, k_end, phase_tidx = ends[-1]
-          where = {k: (tidx, tag[1], tag[2]) for k, tidx, tag in s0.tags if tag and tag[0] == 'line'}
-          pts = [k for k, tidx, tag in s0.tags if tag and tag[0] == 'line' and (
-              (tidx == phase_tidx and k > k_end and tag[1] in ('run', '_thread_finished', '_thread_exception', '__exit__')) or
-              (tidx == 1 and tag[1] == 'join_or_die'))]
-        for k in pts:
-          c2 = dict(case, plan={str(k): ['stall', tt + 10.0]}, expect={str(k): list(where[k])})
+        for c2 in stalled_variants(case, s0):
           r2, _ = check_timeout(c2)
           r2.classes.append('stall')
           record(c2, r2)
@@ -482,6 +473,22 @@ def run_job(job, acct):
       record(case, r)
     if job['shard'] == 0:
       acct.exhaustive_parts.append('kill vs KillableThread life cycle (%r): all schedules with <=%d preemptions over %d yield points' % (base, job['bound'], n))
+
+
+def stalled_variants(case, s0):
+  """The case with a stall past the deadline at every line the phase thread executes after its body published its outcome,
+  and at every line of the executor's join loop (s0 = traced run of the case)."""
+  tt = case['t'] if case['t'] is not None else 180.0
+  ends = [e for e in s0.events if e[0] == 'put-end']
+  if not ends:
+    return
+  _, k_end, phase_tidx = ends[-1]
+  where = {k: (tidx, tag[1], tag[2]) for k, tidx, tag in s0.tags if tag and tag[0] == 'line'}
+  pts = [k for k, tidx, tag in s0.tags if tag and tag[0] == 'line' and (
+      (tidx == phase_tidx and k > k_end and tag[1] in ('run', '_thread_finished', '_thread_exception', '__exit__')) or
+      (tidx == 1 and tag[1] == 'join_or_die'))]
+  for k in pts:
+    yield dict(case, plan={str(k): ['stall', tt + 10.0]}, expect={str(k): list(where[k])})
 
 
 def replay(case):
